@@ -1170,7 +1170,7 @@ fn main() {
         return;
     }
     if glue {
-        *GLUE.lock().unwrap() = Some((vec![], 0, if args.thorough { 8 } else { 25 }));
+        *GLUE.lock().unwrap() = Some((vec![], 0, if args.thorough { 200 } else { 25 }));
         out = Out::sink();
     }
     let mut rng = args.rng(0xA6E7);
